@@ -11,7 +11,7 @@ import (
 )
 
 func (e *Engine) newFnCtx(fn *ssa.Function, c *Contract) *FnCtx {
-	fc := &FnCtx{eng: e, fn: fn, contract: c, declSet: map[string]bool{}, varSort: map[string]string{}, nameCnt: map[string]int{},
+	fc := &FnCtx{stampFloor: -1, eng: e, fn: fn, contract: c, declSet: map[string]bool{}, varSort: map[string]string{}, nameCnt: map[string]int{},
 		assumptions: map[string]bool{}, trusted: map[string]bool{}, closures: map[string]*ssa.MakeClosure{}, boxed: map[string]Val{},
 		iters: map[string]*ssa.Range{}, knownLen: map[string]int64{}, knownBig: map[string]string{}, nonlinear: c.Nonlinear, pendingAxioms: map[string]*Axiom{}}
 	fc.regVar(hAlloc, "Int")
@@ -233,6 +233,11 @@ var reDefHead = regexp.MustCompile(`^\(assert \(= (\|[^|]*\||[A-Za-z_$][A-Za-z0-
 var reReach = regexp.MustCompile(`^R(inv|\d+_)!\d+$`)
 
 func sineSelect(texts []string, goal string, tolerance float64) []bool {
+	return sineSelectD(texts, goal, tolerance, 1<<30)
+}
+
+// sineSelectD: as sineSelect, but facts more than maxDepth trigger steps away from the goal are left out
+func sineSelectD(texts []string, goal string, tolerance float64, maxDepth int) []bool {
 	occ := map[string]int{}
 	fsyms := make([][]string, len(texts))
 	rsyms := make([][]string, len(texts)) // reach variables mentioned
@@ -281,15 +286,22 @@ func sineSelect(texts []string, goal string, tolerance float64) []bool {
 	}
 	inc := make([]bool, len(texts))
 	cone := map[string]bool{}
-	var work []string
+	type witem struct {
+		s string
+		d int
+	}
+	var work []witem
 	for _, s := range symsOf(goal) {
 		cone[s] = true
-		work = append(work, s)
+		work = append(work, witem{s, 0})
 	}
 	for len(work) > 0 {
-		s := work[len(work)-1]
-		work = work[:len(work)-1]
-		for _, i := range triggers[s] {
+		w := work[0]
+		work = work[1:]
+		if w.d >= maxDepth {
+			continue
+		}
+		for _, i := range triggers[w.s] {
 			if inc[i] {
 				continue
 			}
@@ -297,7 +309,7 @@ func sineSelect(texts []string, goal string, tolerance float64) []bool {
 			for _, s2 := range fsyms[i] {
 				if !cone[s2] {
 					cone[s2] = true
-					work = append(work, s2)
+					work = append(work, witem{s2, w.d + 1})
 				}
 			}
 		}
@@ -358,10 +370,24 @@ func (o *Obligation) BuildQueryS(withModel bool, lite bool, ground bool, sine bo
 }
 
 func (o *Obligation) BuildQueryT(withModel bool, lite bool, ground bool, sine bool, tol float64) string {
+	return o.BuildQueryD(withModel, lite, ground, sine, tol, 1<<30)
+}
+
+func (o *Obligation) BuildQueryD(withModel bool, lite bool, ground bool, sine bool, tol float64, depth int) string {
 	fc := o.fc
 	var sb strings.Builder
 	sb.WriteString(prelude)
-	for _, d := range fc.decls {
+	var body []string
+	emit := func(t string) { body = append(body, t) }
+	for i, d := range fc.decls {
+		if st, ok := fc.declStamp[i]; ok && st > o.NFacts {
+			continue
+		}
+		if sine && strings.HasPrefix(d, "(assert") {
+			// point-independent facts take part in the relevance selection like path facts
+			emit(d)
+			continue
+		}
 		sb.WriteString(d)
 		sb.WriteString("\n")
 	}
@@ -374,24 +400,42 @@ func (o *Obligation) BuildQueryT(withModel bool, lite bool, ground bool, sine bo
 	// ground terms at which quantified hypotheses are instantiated by the generator itself
 	var cands []string
 	cs := map[string]bool{}
-	addc := func(t string) {
+	kinds := map[string]int{}
+	addk := func(t string, k int) {
 		if !cs[t] {
 			cs[t] = true
 			cands = append(cands, t)
+			kinds[t] = k
+		} else if kinds[t] != 0 {
+			if k == 0 {
+				kinds[t] = 0
+			} else {
+				kinds[t] |= k
+			}
 		}
 	}
+	addc := func(t string) { addk(t, 0) }
 	for _, sk := range o.Skolems {
-		addc(sk)
-		addc(sApp("-", sk, "1"))
-		addc(sApp("+", sk, "1"))
+		k := fc.skKind[sk]
+		addk(sk, k)
+		if k == kKey {
+			continue
+		}
+		addk(sApp("-", sk, "1"), kIdx)
+		addk(sApp("+", sk, "1"), kIdx)
 		// positions relative to the start of appended segments, and absolute positions in backing arrays
 		n := len(fc.appendLens)
 		for i := n - 1; i >= 0 && i >= n-6; i-- {
-			addc(sApp("-", sk, fc.appendLens[i]))
+			addk(sApp("-", sk, fc.appendLens[i]), kIdx)
 		}
 		m := len(fc.appendOffs)
 		for i := m - 1; i >= 0 && i >= m-4; i-- {
-			addc(sApp("+", fc.appendOffs[i], sk))
+			addk(sApp("+", fc.appendOffs[i], sk), kIdx)
+		}
+		// positions in the base of a re-sliced sequence
+		l := len(fc.sliceLows)
+		for i := l - 1; i >= 0 && i >= l-3; i-- {
+			addk(sApp("+", fc.sliceLows[i], sk), kIdx)
 		}
 	}
 	for _, c := range fc.cands[:o.NCands] {
@@ -400,10 +444,14 @@ func (o *Obligation) BuildQueryT(withModel bool, lite bool, ground bool, sine bo
 		if cb := fc.candBlock[c]; cb != nil && o.Block != nil && cb.Parent() == o.Block.Parent() && !cb.Dominates(o.Block) {
 			continue
 		}
-		addc(c)
+		addk(c, fc.candKind[c])
+		if strings.Contains(c, "loop_") {
+			n := len(fc.sliceLows)
+			for i := n - 1; i >= 0 && i >= n-2; i-- {
+				addk(sApp("+", fc.sliceLows[i], c), kIdx)
+			}
+		}
 	}
-	var body []string
-	emit := func(t string) { body = append(body, t) }
 	addc("0")
 	// terms used as indices / keys in the goal itself
 	for _, t := range indexTerms(o.Goal + " " + o.Guard) {
@@ -424,8 +472,8 @@ func (o *Obligation) BuildQueryT(withModel bool, lite bool, ground bool, sine bo
 			}
 		}
 		for _, q := range f.Quants {
-			for _, c := range append(append([]string{}, cands...), q.Consts...) {
-				inst := strings.Replace(f.Term, q.Forall, q.instantiate(c, cands, 1, ground), 1)
+			for _, c := range append(append([]string{}, q.candsFor(cands, kinds)...), q.Consts...) {
+				inst := strings.Replace(f.Term, q.Forall, q.instantiate(c, cands, 1, ground, kinds), 1)
 				if ground {
 					for _, q2 := range f.Quants {
 						if q2.Forall != q.Forall {
@@ -453,7 +501,7 @@ func (o *Obligation) BuildQueryT(withModel bool, lite bool, ground bool, sine bo
 		}
 	}
 	if sine {
-		keep := sineSelect(body, o.Guard+" "+o.Goal, tol)
+		keep := sineSelectD(body, o.Guard+" "+o.Goal, tol, depth)
 		for i, t := range body {
 			if keep[i] {
 				sb.WriteString(t)
